@@ -28,12 +28,16 @@ CONSTANT Repaired
 
 ---------------------------------------------------------------------------
 (* outcomes *)
-Acc == [res |-> "acc", site |-> "", why |-> ""]
-Rej == [res |-> "rej", site |-> "", why |-> ""]
-Unk == [res |-> "unk", site |-> "", why |-> ""]
-UnkW(site, why) == [res |-> "unk", site |-> site, why |-> why]             \* undecided, but IF it crashes (at site, "?" = anywhere) this is why
-Crash(site, why) == [res |-> "crash", site |-> site, why |-> why]          \* why names the missing guard
-Hog(site, why)   == [res |-> "resource", site |-> site, why |-> why]
+Out(res, site, why) == [res |-> res, site |-> site, why |-> why, asite |-> "", awhy |-> ""]
+Acc == Out("acc", "", "")
+Rej == Out("rej", "", "")
+Unk == Out("unk", "", "")
+UnkW(site, why) == Out("unk", site, why)             \* undecided, but IF it crashes (at site, "?" = anywhere) this is why
+Crash(site, why) == Out("crash", site, why)          \* why names the missing guard
+Hog(site, why)   == Out("resource", site, why)
+(* an earlier event may already have crashed at (asite, awhy): the outcome is no longer decided, both explanations are kept *)
+Maybe(o, asite, awhy) == IF o.res \in {"acc", "rej"} \/ (o.res = "unk" /\ o.why = "") THEN UnkW(asite, awhy)
+                         ELSE [o EXCEPT !.res = "unk", !.asite = asite, !.awhy = awhy]
 Fix(asis, repaired) == IF Repaired THEN repaired ELSE asis
 Safe(o) == o.res \in {"acc", "rej", "unk"}
 
@@ -103,9 +107,9 @@ Vlq(V, p) ==
 
 ---------------------------------------------------------------------------
 (* parseEvent: one event at offset p; status = running status; lev = a loop-related event was seen *)
-Ev(p, status, lev, hd) == [k |-> "ev", p |-> p, status |-> status, lev |-> lev, hd |-> hd, o |-> Acc]     \* hd: the event carries data bytes
-EvEot(lev) == [k |-> "eot", p |-> 0, status |-> 0, lev |-> lev, hd |-> FALSE, o |-> Acc]
-EvOut(o) == [k |-> "out", p |-> 0, status |-> 0, lev |-> FALSE, hd |-> FALSE, o |-> o]
+Ev(p, status, lev, hd) == [k |-> "ev", p |-> p, status |-> status, lev |-> lev, hd |-> hd, alt |-> FALSE, o |-> Acc]     \* hd: the event carries data bytes
+EvEot(lev) == [k |-> "eot", p |-> 0, status |-> 0, lev |-> lev, hd |-> FALSE, alt |-> FALSE, o |-> Acc]
+EvOut(o) == [k |-> "out", p |-> 0, status |-> 0, lev |-> FALSE, hd |-> FALSE, alt |-> FALSE, o |-> o]
 LoopMeta == {6, 225, 226, 228, 229, 230}          \* marker (loopStart/loopEnd texts), raw loop subtypes E1 E2 E4 E5 E6
 IsLoopCC(fmt, cc) == (fmt = "midi" /\ cc \in {110, 111}) \/ (fmt = "xmidi" /\ cc \in {116, 117})
 
@@ -134,7 +138,8 @@ ParseEvent(V, fmt, p, status, lev, had) ==        \* had: an earlier event of th
                   IF q.np + q.v > L THEN EvOut(Rej)
                   ELSE IF ty = 47 THEN EvEot(lev)
                   ELSE IF ty = 228 /\ q.v = 0 /\ ~Repaired /\ (lev \/ ~had)     \* FF E4 00 = internal "loop stack begin" subtype without its data byte:
-                       THEN (IF lev THEN EvOut(UnkW("buildSmfTrackData", "loopstack-no-data")) ELSE EvOut(Crash("buildSmfTrackData", "loopstack-no-data")))   \* data[0] of a vector that never held anything (null)
+                       THEN (IF lev THEN [Ev(q.np + q.v, status, TRUE, FALSE) EXCEPT !.alt = TRUE]       \* loop state not modelled: may crash here, may go on
+                             ELSE EvOut(Crash("buildSmfTrackData", "loopstack-no-data")))                  \* data[0] of a vector that never held anything (null)
                   ELSE Ev(q.np + q.v, status, lev \/ ty \in LoopMeta, q.v > 0 /\ ty # 6)
              [] q.cls = "big" -> EvOut(Rej)
              [] q.cls \in {"neg", "negfar"} -> EvOut(Fix(Crash("parseEvent", "meta-length-wrap"), Rej))   \* check wraps, std::string(ptr, 2^64-k) throws
@@ -153,20 +158,21 @@ ParseEvent(V, fmt, p, status, lev, had) ==        \* had: an earlier event of th
     ELSE Ev(q, b, lev, FALSE)                     \* F1 F4..F6 F8..FE: no data bytes
 
 (* buildSmfTrackData for one track: first delta, then event / delta pairs *)
-RECURSIVE WalkFrom(_, _, _, _, _, _, _)
-WalkFrom(V, fmt, p, status, lev, had, steps) ==
-  IF steps > 2 * VLen(V) + 8 THEN [o |-> Hog("buildSmfTrackData", "sysex-length-wrap"), lev |-> lev]     \* only reachable through the backward move
-  ELSE IF VInLongRep(V, p) THEN [o |-> Unk, lev |-> lev]
+RECURSIVE WalkFrom(_, _, _, _, _, _, _, _)
+WalkFrom(V, fmt, p, status, lev, had, alt, steps) ==
+  LET Fin(o) == IF alt THEN Maybe(o, "buildSmfTrackData", "loopstack-no-data") ELSE o IN
+  IF steps > 2 * VLen(V) + 8 THEN [o |-> Fin(Hog("buildSmfTrackData", "sysex-length-wrap")), lev |-> lev]     \* only reachable through the backward move
+  ELSE IF VInLongRep(V, p) THEN [o |-> Fin(Unk), lev |-> lev]
   ELSE LET ev == ParseEvent(V, fmt, p, status, lev, had) IN
-    IF ev.k = "eot" THEN [o |-> Acc, lev |-> ev.lev]
-    ELSE IF ev.k = "out" THEN [o |-> ev.o, lev |-> lev]
+    IF ev.k = "eot" THEN [o |-> Fin(Acc), lev |-> ev.lev]
+    ELSE IF ev.k = "out" THEN [o |-> Fin(ev.o), lev |-> lev]
     ELSE LET d == Vlq(V, ev.p) IN
-      IF ~d.ok THEN [o |-> Acc, lev |-> ev.lev]       \* no delta left: treated as end of track
-      ELSE WalkFrom(V, fmt, d.np, ev.status, ev.lev, had \/ ev.hd, steps + 1)
+      IF ~d.ok THEN [o |-> IF alt \/ ev.alt THEN Maybe(Acc, "buildSmfTrackData", "loopstack-no-data") ELSE Acc, lev |-> ev.lev]       \* no delta left: treated as end of track
+      ELSE WalkFrom(V, fmt, d.np, ev.status, ev.lev, had \/ ev.hd, alt \/ ev.alt, steps + 1)
 Walk(V, fmt, lev) ==
-  IF fmt = "rsxx" THEN WalkFrom(V, fmt, 0, 0, lev, FALSE, 0)
+  IF fmt = "rsxx" THEN WalkFrom(V, fmt, 0, 0, lev, FALSE, FALSE, 0)
   ELSE LET d == Vlq(V, 0) IN
-       IF ~d.ok THEN [o |-> Rej, lev |-> lev] ELSE WalkFrom(V, fmt, d.np, 0, lev, FALSE, 0)
+       IF ~d.ok THEN [o |-> Rej, lev |-> lev] ELSE WalkFrom(V, fmt, d.np, 0, lev, FALSE, FALSE, 0)
 RECURSIVE WalkTracks(_, _, _, _)
 WalkTracks(views, fmt, i, lev) ==
   IF i > Len(views) THEN Acc
@@ -200,7 +206,7 @@ ParseSMF(I, off, fmt) ==
     ELSE LET w == WalkTracks([i \in DOMAIN ch.t |-> View(I, ch.t[i][1], ch.t[i][2], <<>>)], fmt, 1, FALSE) IN
          \* division 0: the tick length is the fraction 1/0; the first product with a non-zero delay or tempo divides by
          \* zero (fraction::Optim) while the time line is built or later while playing -- not decided by this model
-         IF w.res = "acc" /\ BE16(I, off + 12) = 0 THEN UnkW("Optim", "division-zero") ELSE w
+         IF BE16(I, off + 12) = 0 /\ (w.res = "acc" \/ (w.res = "unk" /\ w.why = "")) THEN UnkW("Optim", "division-zero") ELSE w
 
 ParseGMF(I) == Walk(View(I, 7, N(I), EndTag), "midi", FALSE).o
 ParseRSXX(I) == Walk(View(I, At(I, 0), N(I), <<0>>), "rsxx", FALSE).o
